@@ -167,6 +167,8 @@ func signatureNow(text string) (string, error) {
 	return b.String(), nil
 }
 
+var lastLong string
+
 // leaves returns the significant tokens with positions as the parser reports them.
 func leaves(text string) ([]ref.Tok, error) {
 	var root algoparser.Node
@@ -174,6 +176,15 @@ func leaves(text string) ([]ref.Tok, error) {
 	if perr := rec.Guard(func() {
 		var p *ebnf.Parser
 		p, err = ebnf.New("t.ebnf", strings.NewReader(text))
+		if err == nil && len(text) > 4096 {
+			// a second parser for another long text is created before this one runs: what this one reads must not
+			// depend on it (a reader that has only loaded the first part of its file keeps reading its own file)
+			if lastLong != "" {
+				_, _ = ebnf.New("other.ebnf", strings.NewReader(lastLong))
+				rec.Count("long_renderings_parsed_with_another_parser_created_in_between", 1)
+			}
+			lastLong = text
+		}
 		if err == nil {
 			root, err = p.ParseAndBuildAST()
 		}
